@@ -18,10 +18,12 @@ const (
 	verifLoopEvent     // the event loop has received a peer / stream / wire event and not yet handled it
 	verifValidateTake  // a validation worker is about to take the next request from the validation queue
 	verifInboundExit   // the handler of an inbound stream has stopped reading and has not yet reported the stream closed
+	verifConnectTake   // a connector goroutine is about to take the next peer-exchange / direct-peer dial request
 )
 
 var (
 	verifYieldValFn       func(v *validation, point int)
+	verifYieldConnFn      func(gs *GossipSubRouter, point int)
 	verifYieldBatchFn     func(b *MessageBatch, point int)
 	verifYieldMsgFn       func(msg *Message, point int)
 	verifYieldQueueFn     func(q *rpcQueue, point int)
@@ -68,6 +70,12 @@ func verifYieldMsg(msg *Message, point int) {
 func verifYieldBatch(b *MessageBatch, point int) {
 	if f := verifYieldBatchFn; f != nil {
 		f(b, point)
+	}
+}
+
+func verifYieldConn(gs *GossipSubRouter, point int) {
+	if f := verifYieldConnFn; f != nil {
+		f(gs, point)
 	}
 }
 
